@@ -106,8 +106,9 @@ Fixpoint known_loop (st : state) (order : list Z) (outs : list kout) (log : ulog
                    match o with
                    | KResp => (st1, log', Some UOk)                              (* 1141-1142 *)
                    | KFail => known_loop st1 rest outs' log'                     (* 1143-1150 *)
-                   | KClose => known_loop (fst (close_client st1)) rest outs' log'
-                       (* close(): the pending request fails with ClientError, a KafkaError: caught *)
+                   | KClose => known_loop (close_early st1) rest outs' log'
+                       (* close(): the pending request fails with ClientError, a KafkaError: caught; the cache is
+                          reset only after the operation has run to its end (ClientMeta.close_finish) *)
                    end
                end
            end
@@ -127,7 +128,7 @@ Fixpoint boot_loop (st : state) (hosts : list addr) (outs : list bout) (log : ul
                match o with
                | BResp => (st, log', UOk)                                (* 1222-1223 *)
                | BConnFail | BReqFail => boot_loop st rest outs' log'    (* 1205-1207, 1213-1221 *)
-               | BCloseConn | BCloseReq => boot_loop (fst (close_client st)) rest outs' log'
+               | BCloseConn | BCloseReq => boot_loop (close_early st) rest outs' log'
                    (* close() cancels the Deferred registered by _cancel_on_close: except Exception *)
                end
            end
